@@ -170,7 +170,7 @@ def minimise(prop, case, clause, ident, max_tests=400, wall=60.0):
     def still(c):
         tests[0] += 1
         try:
-            out = prop.run(c)
+            out = run_with_watchdog(prop, c, getattr(prop, "RUN_WALL_CAP", 300))
         except Exception:
             return False
         return any(v[0] == clause and v[1] == ident for v in out.violations)
@@ -210,6 +210,36 @@ def _chunk_worker(args):
         faulthandler.cancel_dump_traceback_later()
 
 
+class RunTimeout(BaseException):
+    pass
+
+
+def _on_alarm(signum, frame):
+    raise RunTimeout()
+
+
+def run_with_watchdog(prop, case, seconds):
+    """prop.run(case) under a generous wall-clock cap (runs take milliseconds to a few seconds): a run that
+    does not come back is reported as a violation of its own kind, never silently dropped"""
+    import signal
+    if not hasattr(signal, "SIGALRM") or getattr(prop, "OWN_WATCHDOG", False):
+        return prop.run(case)
+    old = signal.signal(signal.SIGALRM, _on_alarm)
+    signal.setitimer(signal.ITIMER_REAL, seconds)
+    try:
+        return prop.run(case)
+    except RunTimeout:
+        out = Outcome()
+        out.ev("no-termination")
+        out.fail(prop.ID + ".no-termination", "wall-%ds" % seconds,
+                 "the run did not finish within %d s of wall-clock time (runs of this property normally take "
+                 "well under a second)" % seconds)
+        return out
+    finally:
+        signal.setitimer(signal.ITIMER_REAL, 0)
+        signal.signal(signal.SIGALRM, old)
+
+
 def _run_chunk(prop, prop_id, verif_seed, tier, lo, hi, want_digests):
     agg = {
         "runs": 0, "evals": 0, "nontrivial": 0, "digests": set(), "nt_digests": set(),
@@ -224,7 +254,7 @@ def _run_chunk(prop, prop_id, verif_seed, tier, lo, hi, want_digests):
             case = prop.gen(Streams(seed, i), tier)
             case["seed"] = seed
             case["index"] = i
-            out = prop.run(case)
+            out = run_with_watchdog(prop, case, getattr(prop, "RUN_WALL_CAP", 300))
         except Exception as e:  # harness error: never a verdict
             agg["errors"].append("run %d seed %d: %s" % (i, seed, "".join(
                 traceback.format_exception(type(e), e, e.__traceback__))[-1500:]))
@@ -339,7 +369,7 @@ def replay_in_fresh_process(prop_id, path):
 def replay(prop, path):
     with open(path) as f:
         doc = json.load(f)
-    out = prop.run(doc["case"])
+    out = run_with_watchdog(prop, doc["case"], getattr(prop, "RUN_WALL_CAP", 300))
     want = (doc.get("clause"), doc.get("ident"))
     hit = [v for v in out.violations if (v[0], v[1]) == want] or out.violations
     if hit:
